@@ -23,6 +23,10 @@ import (
 	"io"
 )
 
+// maxFieldPrealloc is the largest field size that is allocated upfront,
+// i.e. before the declared number of bytes was actually read
+const maxFieldPrealloc = 1 << 16
+
 type Metadata struct {
 	data map[string][]byte
 }
@@ -50,6 +54,9 @@ func (m *Metadata) ReadFrom(r io.Reader) (int64, error) {
 	lenb, err := readField(r)
 	if err != nil {
 		return 0, err
+	}
+	if len(lenb) != 4 {
+		return 0, io.ErrUnexpectedEOF
 	}
 	len := int(binary.BigEndian.Uint32(lenb))
 
@@ -110,6 +117,9 @@ func (m *Metadata) GetInt(key string) (int, bool) {
 	if !ok {
 		return 0, false
 	}
+	if len(v) < 8 {
+		return 0, false
+	}
 	return int(binary.BigEndian.Uint64(v)), true
 }
 
@@ -127,6 +137,9 @@ func (m *Metadata) GetBool(key string) (bool, bool) {
 	if !ok {
 		return false, false
 	}
+	if len(v) < 1 {
+		return false, false
+	}
 	return v[0] != 0, true
 }
 
@@ -142,15 +155,27 @@ func (m *Metadata) Get(key string) ([]byte, bool) {
 func readField(r io.Reader) ([]byte, error) {
 	var lenb [4]byte
 
-	_, err := r.Read(lenb[:])
+	_, err := io.ReadFull(r, lenb[:])
 	if err != nil {
 		return nil, err
 	}
 
 	len := binary.BigEndian.Uint32(lenb[:])
 
+	if len > maxFieldPrealloc {
+		// the declared size is not trusted, memory is allocated as data is read
+		var b bytes.Buffer
+
+		_, err = io.CopyN(&b, r, int64(len))
+		if err != nil {
+			return nil, err
+		}
+
+		return b.Bytes(), nil
+	}
+
 	fb := make([]byte, len)
-	_, err = r.Read(fb)
+	_, err = io.ReadFull(r, fb)
 	if err != nil {
 		return nil, err
 	}
